@@ -34,6 +34,10 @@ def pool(dialect):
         ("rw", "INSERT INTO t7 SELECT a FROM s7 UNION ALL SELECT b FROM s8"),
         ("rw", "INSERT INTO t8 SELECT a FROM t1"),
         ("ren", "RENAME TABLE t1 TO t1_bak" if dialect == "mysql" else "ALTER TABLE t1 RENAME TO t1_bak"),
+        # readers of a table that an earlier pool statement writes: a bare query (its role must not depend on where it stands) and a
+        # SELECT * (metadata-free: the star stays a star, whatever the script defined before)
+        ("rw", "SELECT a FROM t1"),
+        ("rw", "INSERT INTO t11 SELECT * FROM t1"),
     ]
     if dialect in ("tsql", "postgres"):
         p.append(("rw", "SELECT a INTO t5 FROM s1"))
@@ -216,7 +220,7 @@ def run(tier: str, opts: dict) -> int:
         evaluations=len(cases),
         distinct_nontrivial=nontrivial,
         generator_executions=n_exec,
-        rule=f"scripts of 1..{max_n} statements from a pool of 10-12 x separator per gap ({len(SEPS)}) x leading ({len(LEAD)}) x trailing ({len(TRAIL)}), all choice "
+        rule=f"scripts of 1..{max_n} statements from a pool of 12-14 x separator per gap ({len(SEPS)}) x leading ({len(LEAD)}) x trailing ({len(TRAIL)}), all choice "
         f"sequences with <= {D} deviations from the single plain INSERT; dialects {dialects}; tsql no-semicolon mode ({len(TSQL_SEPS)} separators) by environment and by "
         "scoped override; non-trivial = script of >= 2 statements",
         exhaustive=True,
